@@ -308,6 +308,59 @@ func checkC06(p *Program, r *Report) {
 		r.Check(diff == "", "C06.R7", f.Name()+"|string operand conversions", leafSite[0], "a string compared with a number is parsed by the same routines whichever side it is on: "+keysOf(leafSets[0]), "a string is parsed differently depending on its side ("+strings.TrimSpace(diff)+"): \"N\" == n and n == \"N\" disagree for some numeral")
 	}
 
+	// R9: a string is declared "not a number" only after it was tried as a float: the helper that reads a string operand
+	// returns its negative verdict only on paths that went through the float parse (an integer numeral is also a float numeral,
+	// so the float parse is the one that decides)
+	seenG := map[*ssa.Function]bool{}
+	for side := 0; side < 2; side++ {
+		for _, b := range f.Blocks {
+			if !underStringTest(b, f.Params[side]) {
+				continue
+			}
+			for _, in := range b.Instrs {
+				c, ok := in.(*ssa.Call)
+				if !ok {
+					continue
+				}
+				g := staticCallee(c)
+				if g == nil || g.Pkg != m.sp || seenG[g] || len(g.Blocks) == 0 || g.Signature.Results().Len() != 2 {
+					continue
+				}
+				if bt, ok := g.Signature.Results().At(1).Type().(*types.Basic); !ok || bt.Kind() != types.Bool {
+					continue
+				}
+				seenG[g] = true
+				floatBlocks := map[*ssa.BasicBlock]bool{}
+				for _, gb := range g.Blocks {
+					for _, gin := range gb.Instrs {
+						if gc, ok := gin.(*ssa.Call); ok {
+							leaves := map[string]bool{}
+							parseLeaves(m, gc, leaves, map[*ssa.Function]bool{})
+							for l := range leaves {
+								if strings.Contains(l, "ParseFloat") {
+									floatBlocks[gb] = true
+								}
+							}
+						}
+					}
+				}
+				bad := ""
+				reach := reachable(g.Blocks[0], func(x *ssa.BasicBlock) bool { return floatBlocks[x] })
+				for _, gb := range g.Blocks {
+					ret, ok := gb.Instrs[len(gb.Instrs)-1].(*ssa.Return)
+					if !ok || len(ret.Results) != 2 {
+						continue
+					}
+					if k, ok := ret.Results[1].(*ssa.Const); ok && k.Value != nil && k.Value.String() == "false" && reach[gb] && !floatBlocks[gb] {
+						bad = "the negative verdict at " + p.Pos(instrPos(ret)) + " can be reached without the float parse having been tried"
+					}
+				}
+				r.Check(bad == "", "C06.R9", g.Name()+"|not a number only after the float parse", p.Pos(g.Pos()), "every 'not a number' return lies behind the float parse",
+					bad+": a decimal numeral that only the float parse accepts (\"1E3\", an integer beyond int64) is no longer equal to the number it denotes")
+			}
+		}
+	}
+
 	// R8: every result of the comparator is one of: false, true for two nils, a comparison of the operands' numeric/bool/string
 	// readings by the package's conversion helpers, or reflect.DeepEqual of the two operands
 	if len(nilCalls) == 2 {
@@ -749,7 +802,12 @@ func impureOperand(tt *typeTerms, v ssa.Value, depth int) string {
 		return ""
 	case *ssa.Call:
 		switch reflectMethod(x) {
-		case "Elem", "Index":
+		case "Elem":
+			if !elemAfterNilTest(tt, x) {
+				return "an operand unwrapped without the nil test of the idiom (a nil operand becomes the invalid reflect.Value, which is not nil to the comparator)"
+			}
+			return impureOperand(tt, x.Call.Args[0], depth+1)
+		case "Index":
 			return impureOperand(tt, x.Call.Args[0], depth+1)
 		}
 		return "the result of " + calleeName(x)
@@ -817,4 +875,35 @@ func bothNumeric(m *vmModel, f *ssa.Function, b *ssa.BasicBlock) bool {
 		seen[c.Call.Args[0]] = true
 	}
 	return len(seen) >= 2
+}
+
+// elemAfterNilTest: the Elem() call lies on the not-nil side of an IsNil() test of the same value.
+func elemAfterNilTest(tt *typeTerms, c *ssa.Call) bool {
+	recv := c.Call.Args[0]
+	same := func(v ssa.Value) bool {
+		return v == recv || tt.sameValue(v, recv) || sameCellContent(tt, v, recv) || sameAllocLoad(recv, v) || sameAllocLoad(v, recv)
+	}
+	for d := c.Block(); d != nil && d.Idom() != nil; d = d.Idom() {
+		id := d.Idom()
+		iff, ok := id.Instrs[len(id.Instrs)-1].(*ssa.If)
+		if !ok {
+			continue
+		}
+		cond, neg := iff.Cond, false
+		if u, ok := cond.(*ssa.UnOp); ok && u.Op == token.NOT {
+			cond, neg = u.X, true
+		}
+		nc, ok := cond.(*ssa.Call)
+		if !ok || reflectMethod(nc) != "IsNil" || !same(nc.Call.Args[0]) {
+			continue
+		}
+		notNil := 1 // successor on which the value is not nil
+		if neg {
+			notNil = 0
+		}
+		if edgeOnly(id, notNil, d) {
+			return true
+		}
+	}
+	return false
 }
